@@ -10,7 +10,9 @@ equivalent one in which those choices are undone:
   N2  `for t in (e1, e2, ...)` over a literal (or a single-assignment local bound to a literal) is unrolled, including the
       search form  `for t in (...): if c: break  else: ...`;
   N3  setattr(o, 'name', v) / getattr(o, 'name') with a constant name become attribute stores / loads;
-  N4  `acc = []` followed by `for t in it: [if c:] acc.append(e)` becomes a list comprehension.
+  N4  `acc = []` followed by `for t in it: [if c:] acc.append(e)` becomes a list comprehension;
+  N5  zip(t1, t2, ...) of literal tuples (or single-assignment locals bound to them) becomes the literal tuple of rows;
+  N6  `d = {k: v for t in <literal> if c}` becomes `d = {}` followed by the (then unrolled) loop of guarded item stores.
 
 A helper is never inlined when a rule names it (the protect set: every identifier that occurs in a string constant of the
 rule sources), when a subclass overrides it (dynamic dispatch could pick another body), when it is a generator, has
@@ -237,6 +239,8 @@ class Normalizer:
             m = self.prog.find_method(outer.cls, fn.attr)
             if m is None or m is outer or m.name in ctx['stack'] or m.kind != 'method':
                 return None
+            if not m.name.startswith('_'):
+                return None       # public methods are interface, not helpers
             if m.module is not outer.module:
                 return None
             if self._overridden(outer.cls, fn.attr, m):
@@ -657,6 +661,68 @@ class Normalizer:
         fn.body = do_block(fn.body)
         return changed[0]
 
+    # ------------------------------------------------------------------ N5 / N6
+    def literal_zip(self, fn):
+        for n in ast.walk(fn):
+            for c in ast.iter_child_nodes(n):
+                c._p = n
+        changed = [False]
+        norm = self
+
+        class T(ast.NodeTransformer):
+            def visit_Call(self, node):
+                self.generic_visit(node)
+                if isinstance(node.func, ast.Name) and node.func.id == 'zip' and len(node.args) >= 2 and not node.keywords:
+                    cols = [norm._literal_of(a, fn) for a in node.args]
+                    if all(c is not None for c in cols) and len({len(c.elts) for c in cols}) == 1 \
+                            and not any(isinstance(x, ast.Starred) for c in cols for x in c.elts) \
+                            and all(is_stable(x) for c in cols for x in c.elts):
+                        changed[0] = True
+                        rows = [ast.Tuple(elts=[clone(c.elts[i]) for c in cols], ctx=ast.Load()) for i in range(len(cols[0].elts))]
+                        return ast.copy_location(ast.Tuple(elts=rows, ctx=ast.Load()), node)
+                return node
+        T().visit(fn)
+        return changed[0]
+
+    def dictcomp_loops(self, fn):
+        for n in ast.walk(fn):
+            for c in ast.iter_child_nodes(n):
+                c._p = n
+        changed = [False]
+
+        def do_block(stmts):
+            out = []
+            for st in stmts:
+                for f in ('body', 'orelse', 'finalbody'):
+                    if isinstance(getattr(st, f, None), list) and not isinstance(st, ast.ClassDef):
+                        setattr(st, f, do_block(getattr(st, f)))
+                if isinstance(st, ast.Try):
+                    for h in st.handlers:
+                        h.body = do_block(h.body)
+                if isinstance(st, ast.Assign) and len(st.targets) == 1 and isinstance(st.targets[0], ast.Name) \
+                        and isinstance(st.value, ast.DictComp) and len(st.value.generators) == 1 \
+                        and self._literal_of(st.value.generators[0].iter, fn) is not None:
+                    g = st.value.generators[0]
+                    name = st.targets[0].id
+                    store = ast.Assign(targets=[ast.Subscript(value=ast.Name(id=name, ctx=ast.Load()), slice=st.value.key, ctx=ast.Store())],
+                                       value=st.value.value)
+                    body = [store]
+                    for c in reversed(g.ifs):
+                        body = [ast.If(test=c, body=body, orelse=[])]
+                    loop = ast.For(target=g.target, iter=g.iter, body=body, orelse=[])
+                    init = ast.Assign(targets=[ast.Name(id=name, ctx=ast.Store())], value=ast.Dict(keys=[], values=[]))
+                    for x in (init, loop):
+                        ast.copy_location(x, st)
+                        ast.fix_missing_locations(x)
+                    _relocate([init, loop], st)
+                    out.extend([init, loop])
+                    changed[0] = True
+                    continue
+                out.append(st)
+            return out
+        fn.body = do_block(fn.body)
+        return changed[0]
+
     # ------------------------------------------------------------------ N3 setattr / getattr
     def attr_forms(self, fn):
         changed = [False]
@@ -759,6 +825,8 @@ class Normalizer:
             ctx['self'] = None
         fn.body = self.proc_block(fn.body, ctx, MAX_DEPTH)
         ch = bool(ctx['used'])
+        ch |= self.literal_zip(fn)
+        ch |= self.dictcomp_loops(fn)
         ch |= self.unroll(fn)
         ch |= self.attr_forms(fn)
         ch |= self.append_loops(fn)
